@@ -358,14 +358,20 @@ package hotline
 //@   before any call io.Copy assert writer_kind(arg0) == 2 || reader_kind(arg1) == 2
 //@   before call (io.ReadWriter).Read assert false
 //@   before call (io.Reader).Read assert false
-//@   before call io.ReadFull assert len(arg1) == 12
+//@   before call io.ReadFull assert len(arg1) == 12 && same(arg0, rw)
+//@   before any call bufio.NewReader assert !same(arg0, rw)
+//@   before any call bufio.NewReaderSize assert !same(arg0, rw)
+//@   before any call bufio.NewScanner assert !same(arg0, rw)
 
 //@ func (s *Server) handleFileTransfer(ctx context.Context, rwc io.ReadWriter) (err error)
 //@   before any call io.CopyN assert writer_kind(arg0) == 2 || reader_kind(arg1) == 2
 //@   before any call io.Copy assert writer_kind(arg0) != 1 || reader_kind(arg1) == 2
 //@   before call (io.ReadWriter).Read assert false
 //@   before call (io.Reader).Read assert false
-//@   before call io.ReadFull assert len(arg1) == 16
+//@   before call io.ReadFull assert len(arg1) == 16 && same(arg0, rwc)
+//@   before any call bufio.NewReader assert !same(arg0, rwc)
+//@   before any call bufio.NewReaderSize assert !same(arg0, rwc)
+//@   before any call bufio.NewScanner assert !same(arg0, rwc)
 
 //@ func (ffo *flattenedFileObject) ReadFrom(r io.Reader) (n int64, err error)
 //@   before any call io.CopyN assert writer_kind(arg0) != 1 || reader_kind(arg1) == 2
@@ -650,7 +656,7 @@ package hotline
 
 // (assumed for the transfer properties; NewFileWrapper's body reads the stored side files)
 //@ func NewFileWrapper(fs FileStore, path string, dataOffset int64) (r *fileWrapper, err error)
-//@   property C08 C10 C11
+//@   property C01 C08 C10 C11
 //@   ensures (err == nil) == (r != nil)
 //@   ensures err == nil ==> r.Ffo != nil && r.Ffo.readOffset == 0 && inv_FFO(r.Ffo) && r.dataOffset == dataOffset && fresh(r) && fresh(r.Ffo) && disjoint(r, r.Ffo)
 //@   modifies nothing
@@ -799,7 +805,7 @@ package hotline
 // filter.
 
 //@ func GetFileNameList(path string, ignoreList []string) (fields []Field, err error)
-//@   property C11
+//@   property C01 C11
 //@   before call hotline.ignoreFile#1 assert arg0 == callres("Name#1") && same(arg1, ignoreList)
 //@   before call hotline.ignoreFile#2 assert same(arg1, ignoreList)
 //@   before call hotline.ignoreFile#3 assert same(arg1, ignoreList)
@@ -872,3 +878,38 @@ package hotline
 //@   modifies t.Flags, t.IsReply, t.Type, t.ID, t.ErrorCode, t.TotalSize, t.DataSize, t.ParamCount, t.Fields
 //@   loop 1 modifies t.Fields
 //@   nopanic
+
+// C07: an alias stores the path it was given.  The handler proves that path to be inside the file
+// root; a target rewritten here (made relative, resolved, joined) would be resolved by the OS
+// against wherever the alias lives later -- e.g. after a move to a shallower folder -- and could
+// climb out of the root.
+
+//@ func (fs *OSFileStore) Symlink(oldname string, newname string) (err error)
+//@   property C07
+//@   before call os.Symlink assert arg0 == oldname && arg1 == newname
+
+// C09: the upload handler never removes a partial file: whatever earlier connections delivered
+// stays where a resumed upload expects it.
+//@ func UploadHandler(rwc io.ReadWriter, fullPath string, fileTransfer *FileTransfer, fileStore FileStore, rLogger *slog.Logger, preserveForks bool) (err error)
+//@   property C09
+//@   before any call (hotline.FileStore).Remove assert false
+//@   before any call (hotline.FileStore).RemoveAll assert false
+//@   before any call os.Remove assert false
+//@   before any call os.RemoveAll assert false
+
+// C14: a transaction is handed to the connection by one blocking Write.  A write deadline would
+// turn a slow reader into a partial Write after which the connection stays in use: later
+// transactions would follow half a frame.
+//@ func (s *Server) sendTransaction(t Transaction) (err error)
+//@   property C14
+//@   before any call SetWriteDeadline assert false
+//@   before any call SetDeadline assert false
+
+// C13: a notice for "the others" goes to every registered client except the sender: each entry of
+// the client list with a different ID gets one copy (every iteration with c.ID != cc.ID appends),
+// and nobody else does.
+//@ func (cc *ClientConn) NotifyOthers(t Transaction) (trans []Transaction)
+//@   property C13
+//@   requires cc != nil
+//@   before call builtin.append assert c.ID != cc.ID
+//@   loop 1 reaches builtin.append when c.ID != cc.ID
